@@ -660,7 +660,10 @@ class StmtMixin(BuiltinMixin):
             for s2, seq in self.drain_producer(st, ctx, it, s.lineno):
                 out.extend([(s2, seq)] if isinstance(seq, Raise) else self.exec_for(s, s2, ctx, seq))
             return out
-        if isinstance(it, Ref) and META[it.oid].kind == "list":
+        if isinstance(it, Ref) and META[it.oid].kind == "object" and isinstance(META[it.oid].cls, ClassVal) \
+                and self.P.find_method(META[it.oid].cls.ci, "__model_item__") is not None:
+            return self.exec_for_model(s, st, ctx, it)
+        if isinstance(it, Ref) and META[it.oid].kind == "list" and not st.has(it, "$len"):
             it = st.get(it, "items")
         if isinstance(it, tuple) and not (it and isinstance(it[0], str) and it[0].startswith("$")):
             # concrete sequence: exact unrolling
@@ -727,5 +730,45 @@ class StmtMixin(BuiltinMixin):
 
             return self.cut_loop(s, st, ctx, spec, k, test_fn, body_fn, s.orelse)
         raise EngineError(f"{ctx.func.key()}:{s.lineno}: for loop over {it!r}")
+
+    def exec_for_model(self, s, st, ctx, coll: Ref):
+        """Iteration over a model collection of symbolic size: index _i<k> runs over 0..__model_len__(), the element of
+        each step comes from __model_item__(i) (which may allocate a cursor object and update ghost bookkeeping)."""
+        spec, k = self.loop_spec(s, ctx)
+        if spec is None:
+            raise EngineError(f"{ctx.func.key()}:{s.lineno}: for loop #{k} over a model collection has no invariant")
+        idx_name = f"_i{k}"
+        out = []
+        for st0, r0 in self.call_method(st, ctx, coll, "__model_iter_start__", [], {}, s.lineno):
+            if isinstance(r0, Raise):
+                out.append((st0, r0))
+                continue
+            st0.heap[ctx.frame.oid][idx_name] = z3.IntVal(0)
+
+            def test_fn(s2):
+                res = []
+                for s3, n in self.call_method(s2, ctx, coll, "__model_len__", [], {}, s.lineno):
+                    i = s3.heap[ctx.frame.oid][idx_name]
+                    s3.assume(i >= 0)
+                    res.extend(self.fork(s3, i < ops.lift(n)))
+                return res
+
+            def body_fn(s2):
+                i = s2.heap[ctx.frame.oid][idx_name]
+                res = []
+                for s3, elem in self.call_method(s2, ctx, coll, "__model_item__", [i], {}, s.lineno):
+                    if isinstance(elem, Raise):
+                        res.append((s3, elem))
+                        continue
+                    for s4, oc1 in self.assign_target(s.target, elem, s3, ctx):
+                        if not isinstance(oc1, Normal):
+                            res.append((s4, oc1))
+                            continue
+                        s4.set(ctx.frame, idx_name, i + 1)
+                        res.extend(self.exec_block(s.body, s4, ctx))
+                return res
+
+            out.extend(self.cut_loop(s, st0, ctx, spec, k, test_fn, body_fn, s.orelse))
+        return out
 
     st_AsyncFor = st_For
